@@ -343,3 +343,24 @@ let show_aouts (l : aout list) : string =
     | AOut e -> show_ev b e
     | ARet x -> Buffer.add_string b (if x then "(rb #t)" else "(rb #f)")) l;
   Buffer.contents b
+
+(* ---- subscription algebra ---- *)
+let rec sterm_of (s : sexp) : sterm =
+  match head s with
+  | "unit" -> SUnitT
+  | "leaf" -> SLeafT (narg (List.hd (args s)))
+  | "multi" -> SMultiT
+  | "zip" -> SZipT (sterm_of (List.nth (args s) 0), sterm_of (List.nth (args s) 1))
+  | h -> failwith ("bad subscription term " ^ h)
+
+let cop_of (s : sexp) : cop =
+  let a = args s in
+  match head s with
+  | "append" -> CAppend (narg (List.hd a))
+  | "unsub" -> CUnsub (sterm_of (List.hd a))
+  | "closed" -> CClosed (sterm_of (List.hd a))
+  | "die" -> CDie (narg (List.hd a))
+  | h -> failwith ("bad subscription op " ^ h)
+
+let show_cobs (l : cobs list) : string =
+  String.concat " " (List.map (function CKilled k -> Printf.sprintf "(k %d)" (int_of_nat k) | CRet b -> if b then "(rb #t)" else "(rb #f)") l)
